@@ -121,6 +121,14 @@ CHECKS = {
             'Every program x queue and function x argument in the bounded space is executed both ways; printed text, line list, '
             'student globals, outcome class and line, consumed inputs, return value/exception and leftover temporaries are compared.',
             '2/C06'),
+    'C13': ('explicit-state enumeration of grading histories in one live process: all ordered pairs over 132 (quick) / 260 (thorough) '
+            'gradings = (20 instructor scripts that override feedback classes, suppress, change formatter, mock, split sections, '
+            'crash, open groups, provide TIFA module types, set pools/hooks) x (11 submissions chosen by the collision rule) x 4 '
+            'environments, and all triples over a 20-grading core; oracle: differential - each position must equal the same '
+            'grading run first in a fresh interpreter',
+            'Every bounded history is executed through Bundle.run_ics_bundle in a long-lived process and every position compared '
+            'with a fresh-interpreter reference; any difference in error, output, label, title, message, correctness or score is '
+            'a violation.', '2/C13'),
 }
 
 PENDING = ['C02', 'C03', 'C04', 'C05', 'C06', 'C07', 'C08', 'C09', 'C10', 'C11', 'C12', 'C13', 'C14', 'C15',
